@@ -295,6 +295,7 @@ Section Target.
     | EVote _ => True
     | EPropose x => cons x
     | EHigh x => cons x /\ (b_view x < b_view b)%N       (* b stays newer than the high QC *)
+    | ETC _ => True                                      (* any timeout certificate, for any view *)
     end.
 
   Lemma store_block_cons : forall s x, cons x -> exists e, store_block s x = s ++ e /\ Forall cons e.
@@ -309,7 +310,8 @@ Section Target.
   Lemma step_K : forall st S e st' o, K st S -> ev_ok e -> step c st e = (st', o) ->
     (has_qc o /\ Qr (S ++ ev_voters e)) \/ (~ has_qc o /\ K st' (S ++ ev_voters e)).
   Proof.
-    intros st S e st' o HK He H. destruct e as [v|x|x]; cbn [step ev_voters] in *.
+    intros st S e st' o HK He H. destruct e as [v|x|x|tv]; cbn [step ev_voters] in *;
+      [| | |inversion H; subst; right; rewrite app_nil_r; split; [apply has_qc_nil|assumption]].
     - eapply collect_K; eauto.
     - destruct (store_block_cons (st_store st) x He) as [e [Es Hce]]. rewrite Es in H.
       assert (HK1 : K (mkSt (st_store st ++ e) (st_high st) [] (st_verified st)) S).
@@ -328,7 +330,8 @@ Section Target.
     (has_qc o /\ Qr (P ++ ev_voters e) /\ is_prop_b e) \/
     (~ has_qc o /\ ((K st' (P ++ ev_voters e) /\ is_prop_b e) \/ (U st' (P ++ ev_voters e) /\ ~ is_prop_b e))).
   Proof.
-    intros st P e st' o HU He Hp H. destruct e as [v|x|x]; cbn [step ev_voters] in *.
+    intros st P e st' o HU He Hp H. destruct e as [v|x|x|tv]; cbn [step ev_voters] in *;
+      [| | |inversion H; subst; right; rewrite app_nil_r; split; [apply has_qc_nil|]; right; split; [assumption|discriminate]].
     - right. destruct (collect_U _ _ _ _ _ HU H) as [Hn HU']. split; [assumption|]. right. split; [assumption|discriminate].
     - subst x. rewrite app_nil_r.
       assert (Es : store_block (st_store st) b = st_store st ++ [b]).
@@ -451,7 +454,7 @@ Section Target.
   Lemma voters_spec : forall es i, In i (voters es) <-> exists v, In (EVote v) es /\ valid_vote v i.
   Proof.
     intros es i. unfold voters. rewrite in_flat_map. split.
-    - intros [e [He Hi]]. destruct e as [v| |]; cbn in Hi; try contradiction.
+    - intros [e [He Hi]]. destruct e as [v| | |]; cbn in Hi; try contradiction.
       exists v. split; [assumption|]. now apply valid_for_spec.
     - intros [v [He Hv]]. exists (EVote v). split; [assumption|]. cbn. now apply valid_for_spec.
   Qed.
@@ -638,6 +641,7 @@ Section Target.
     | EVote v :: r => becomes_known kn (w || names_b v) r
     | EPropose x :: r => becomes_known (kn || N.eqb (b_hash x) (b_hash b) || w) false r
     | EHigh _ :: r => becomes_known kn w r
+    | ETC _ :: r => becomes_known kn w r
     end.
 
   Lemma becomes_known_true : forall es w, becomes_known true w es = true.
@@ -749,11 +753,12 @@ Section Target.
 
   Lemma step_UW : forall st P w e st' o, UW st P w -> ev_ok e -> step c st e = (st', o) ->
     let kn' := match e with EPropose x => N.eqb (b_hash x) (b_hash b) || w | _ => false end in
-    let w' := match e with EVote v => w || names_b v | EPropose _ => false | EHigh _ => w end in
+    let w' := match e with EVote v => w || names_b v | EPropose _ => false | _ => w end in
     (has_qc o /\ Qr (P ++ ev_voters e) /\ kn' = true) \/
     (~ has_qc o /\ ((K st' (P ++ ev_voters e) /\ kn' = true) \/ (UW st' (P ++ ev_voters e) w' /\ kn' = false))).
   Proof.
-    intros st P w e st' o [HU Hw] He H. subst w. destruct e as [v|x|x]; cbn [step ev_voters] in *; cbn zeta.
+    intros st P w e st' o [HU Hw] He H. subst w. destruct e as [v|x|x|tv]; cbn [step ev_voters] in *; cbn zeta;
+      [| | |inversion H; subst; right; rewrite app_nil_r; split; [apply has_qc_nil|]; right; split; [split; [assumption|reflexivity]|reflexivity]].
     - right. destruct (collect_U _ _ _ _ _ HU H) as [Hn HU']. split; [assumption|]. right. split; [|reflexivity].
       split; [assumption|]. unfold collect_vote in H. cbn [negb] in H.
       destruct (local_get (st_store st) (v_hash v)) as [y|] eqn:El.
@@ -810,7 +815,7 @@ Section Target.
       pose proof (step_UW _ _ _ _ _ _ HU H2 E1) as HS. cbn zeta in HS.
       assert (Hbk : becomes_known false w (e :: es) =
                     becomes_known (match e with EPropose x => N.eqb (b_hash x) (b_hash b) || w | _ => false end)
-                                  (match e with EVote v => w || names_b v | EPropose _ => false | EHigh _ => w end) es).
+                                  (match e with EVote v => w || names_b v | EPropose _ => false | _ => w end) es).
       { destruct e; reflexivity. }
       rewrite Hbk.
       destruct HS as [[Hq [HQ Hk]]|[Hn [[HK1 Hk]|[HU1 Hk]]]]; rewrite Hk.
